@@ -72,6 +72,11 @@ CLAIMED = {
    note="Bounds: taxa<=2-3, markers<=2 (3), traits<=2, ploidy 2; exact reals (quantities built from concrete float frequencies compared with 1e-9 relative tolerance); ML optimum, eigendecomposition and Gauss-Seidel convergence within maxiter are outside.",
    technique="symbolic execution on z3-term arrays (symnp) + z3 (QF_NRA); optimiser/eigh stubbed by contract; replay on real numpy",
    design="2/C04"),
+   "C03": dict(
+   text="Bounded symbolic model checking of the real labelled-matrix classes (13 classes: taxa/variant/trait, phased, square-taxa, genotype, breeding-value, coancestry, square-taxa-square-trait) and the three genotyping protocols: every label and data cell is a distinct solver constant, the structural operations (select/delete/insert/adjoin/concat/append/remove/incorp/reorder/sort/group/ungroup, axis-specific and axis-generic) run on them from a fresh state and from the state produced by the real group_<axis>() (sorting/grouping fork on z3-decided comparisons of symbolic labels), and a row-tuple reference model decides by term identity that every resulting row/column carries the labels and data slice of the entity the reference puts there, that labels of the other axes are kept, operands of non-mutating operations are unchanged, mutating = non-mutating result, generic = specific form, and z3 proves that whenever a matrix reports itself grouped its names/start/stop/length are a contiguous partition with labels constant within and distinct across groups. Counterexamples are replayed on real numpy with distinct concrete codes. Two inheritance defects are reported as KNOWN-FINDING by call site.",
+   note="Bounds: axis length <=3, one operation (two in thorough) per history, index arguments enumerated (ints, duplicate lists, slices), optional label arrays absent in thorough; strings represented by integer constants; cross-source blocks of square matrices not exercised.",
+   technique="symbolic execution on z3-term arrays (symnp): term-identity attachment against a row-tuple reference model + z3 for ordering/grouping clauses; replay on real numpy",
+   design="2/C03"),
 }
 NA = {}
 for pid in props:
